@@ -61,13 +61,15 @@ func vpC18All(tname string) {
 	to, from := vpNew(ti), vpNew(ti)
 	vpSetField(to, 0, 0, 'i')
 	vpSetID(from, to.GetID())
+	vpSymLeaves = false // concrete leaves: with everything populated the merge code compares many values
 	for f := 2; f < len(fields); f++ {
 		if vpShapes(fields[f].Kind) == 0 {
 			continue
 		}
-		vpSetField(to, f, 0, 'a')
-		vpSetField(from, f, 1%vpShapes(fields[f].Kind), 'k')
+		vpSetField(to, f, 0, byte('a'+f%10))
+		vpSetField(from, f, 1%vpShapes(fields[f].Kind), byte('k'+f%10))
 	}
+	vpSymLeaves = true
 	old := vpCloneItem(to)
 	fromSnap := vpCloneItem(from)
 	_, err := CopyItemProperties(to, from)
@@ -168,6 +170,58 @@ func vpH_C18_untyped_side() {
 		vpMergeCheck("untyped-to/merge", to, old, from, vpC18IsMerged)
 	}
 	vpDiffItems("untyped-side/from-unchanged", fromSnap, from, nil)
+	vpReach("end")
+}
+
+// the same single-item property set on both sides to values the library's equality holds equal but
+// that are not the same value (an IRI and an embedded object with that id, the two schemes): a merged
+// property set in `from` has from's value afterwards - not "something equal to it"
+func vpH_C18_equivalent_values() {
+	ti := vpTypeIndex(vpC18Types[vpChoice(len(vpC18Types))])
+	fields := vpFieldsOf(ti)
+	f := 2 + vpChoice(len(fields)-2)
+	if fields[f].Kind != "Item" || !vpC18Merged[fields[f].Name] {
+		vpReach("end")
+		return
+	}
+	id := vpMkIRI('v')
+	var a, b Item
+	switch vpChoice(4) {
+	case 0:
+		a, b = id, &Object{ID: id, Type: NoteType, Name: vpMk_NLV(0, 'n')}
+	case 1:
+		a, b = &Object{ID: id, Type: NoteType, Name: vpMk_NLV(0, 'n')}, id
+	case 2:
+		a, b = id, IRI("http"+string(id[5:]))
+	default:
+		a, b = &Object{ID: id, Type: NoteType, Name: vpMk_NLV(0, 'n'), Summary: vpMk_NLV(0, 's')}, &Object{ID: id, Type: NoteType, Name: vpMk_NLV(0, 'n')}
+	}
+	to, from := vpNew(ti), vpNew(ti)
+	vpSetField(to, 0, 0, 'i')
+	vpSetID(from, to.GetID())
+	vpMapItemFields(to, func(name string, v Item) Item {
+		if name == fields[f].Name {
+			return a
+		}
+		return v
+	})
+	vpMapItemFields(from, func(name string, v Item) Item {
+		if name == fields[f].Name {
+			return b
+		}
+		return v
+	})
+	cell := vpTypeNames[ti] + "." + fields[f].Name
+	_, err := CopyItemProperties(to, from)
+	vpAssert("equivalent/ok/"+cell, err == nil)
+	var got Item
+	vpMapItemFields(to, func(name string, v Item) Item {
+		if name == fields[f].Name {
+			got = v
+		}
+		return v
+	})
+	vpAssert("equivalent/from-wins/"+cell, vpEqItem(got, b))
 	vpReach("end")
 }
 
